@@ -216,7 +216,7 @@ def check(fx, rep, tier):
             for o in mir.rv_operands(s['rv']):
                 if o.get('k') == 'const' and o.get('static') and 'atomic' in (o.get('ty') or '').lower() and 'connection' in o['static']:
                     stat_tys.add(re.sub(r'^[&*](mut |const )?', '', (o.get('ty') or '').strip()).split('::')[-1])
-    narrow_at = sorted(t for t in stat_tys if re.search(r'Atomic[UI](8|16)\b', t))
+    narrow_at = sorted(t for t in stat_tys if re.search(r'Atomic[UI](8|16)\b|Atomic<[ui](8|16)>', t))
     rep.check(bool(stat_tys) and not narrow_at, 'R19.1', 'connection|id-counter-width', 'zlink-core/src/connection/mod.rs',
               'the id counter is an atomic of at least 32 bits (%s)' % ', '.join(sorted(stat_tys)),
               'the id counter has type %s: it wraps after 2^%s connections and identifiers repeat' % (', '.join(narrow_at) or sorted(stat_tys), '8' if any('8' in t for t in narrow_at) else '16'))
